@@ -449,6 +449,17 @@ def run_jwe(ctx):
                         argv = ["jwe", "enc", "-i", js({"protected": prot}), "-I", "pt.bin", "-k", "k0.jwk"] + (["-c"] if compact else []) + (["-O", detach] if detach else [])
                         encs.append(("cli.run", {"argv": argv, "files": fs, "rand": rng.randbytes(300).hex(), "_key": key, "_detach": detach,
                                                  "_random": wrap in E.RANDOMIZED or zip_, "_why": "%s/%s zip=%s compact=%s -O %s" % (wrap, enc, zip_, compact, detach)}))
+    # additional authenticated data in the template: the JSON forms carry it; the compact form has no place for it, so
+    # asking for compact output must fail rather than print a token that cannot be decrypted
+    for wrap, enc in (("A128KW", "A128GCM"), ("dir", "A128CBC-HS256"), ("ECDH-ES", "A256GCM")):
+        key = E.key_for(pool, wrap, enc, rng)
+        for aad in ("QUFE", ""):
+            for compact in (False, True):
+                for detach in (None, "ct.bin"):
+                    fs = {"pt.bin": hx(pt), "k0.jwk": hx(js(key))}
+                    argv = ["jwe", "enc", "-i", js({"protected": {"alg": wrap, "enc": enc}, "aad": aad}), "-I", "pt.bin", "-k", "k0.jwk"] + (["-c"] if compact else []) + (["-O", detach] if detach else [])
+                    encs.append(("cli.run", {"argv": argv, "files": fs, "rand": rng.randbytes(300).hex(), "_key": key, "_detach": detach, "_may_refuse": compact,
+                                             "_random": wrap in E.RANDOMIZED, "_why": "%s/%s aad=%r compact=%s -O %s" % (wrap, enc, aad, compact, detach)}))
     encs.append(("cli.run", {"argv": ["jwe", "enc", "-i", js({"protected": {"enc": "A128GCM"}}), "-I", "pt.bin", "-k", "k0.jwk", "-k", "k1.jwk", "-c"],
                              "files": {"pt.bin": hx(pt), "k0.jwk": hx(js(pool["oct-16"])), "k1.jwk": hx(js(pool["oct-32"]))}, "_key": pool["oct-16"], "_detach": None,
                              "_must_fail": True, "_why": "compact with two recipients"}))
@@ -488,7 +499,8 @@ def run_jwe(ctx):
                 ctx.pfails.append(("cli:jwe-enc:compact-many", "compact output with two recipients succeeded", o, strip(a), r))
             continue
         if r.get("status") != 0:
-            ctx.pfails.append(("cli:jwe-enc:status", "jose jwe enc failed for a valid combination (%s)" % a["_why"], o, strip(a), r))
+            if not a.get("_may_refuse"):
+                ctx.pfails.append(("cli:jwe-enc:status", "jose jwe enc failed for a valid combination (%s)" % a["_why"], o, strip(a), r))
             continue
         text = parse_out(r, None).strip()
         fs = {"k0.jwk": hx(js(a["_key"]))}
@@ -502,7 +514,8 @@ def run_jwe(ctx):
         # and through fmt into the other serialization
         tokj = json.loads(text) if text.startswith("{") else None
         if not a["_detach"] and not (tokj is not None and ("header" in tokj or "unprotected" in tokj or "recipients" in tokj)):
-            decs.append(("cli.run", {"argv": ["jwe", "fmt", "-i", text] + ([] if "." in text and not text.startswith("{") else ["-c"]), "files": {}, "_fmt": True, "_key": a["_key"], "_why": a["_why"]}))
+            decs.append(("cli.run", {"argv": ["jwe", "fmt", "-i", text] + ([] if "." in text and not text.startswith("{") else ["-c"]), "files": {}, "_fmt": True, "_key": a["_key"], "_why": a["_why"],
+                                     "_may_refuse": tokj is not None and "aad" in tokj}))
     sent = [(o, strip(a)) for o, a in decs]
     rd = ctx.real(sent)
     more = []
@@ -512,7 +525,8 @@ def run_jwe(ctx):
             ctx.pfails.append(("crash:cli.run", r["crash"], o, strip(a), r))
         elif a.get("_fmt"):
             if r.get("status") != 0:
-                ctx.pfails.append(("cli:jwe-fmt:refused", "conversion refused (%s)" % a["_why"], o, strip(a), r))
+                if not a.get("_may_refuse"):
+                    ctx.pfails.append(("cli:jwe-fmt:refused", "conversion refused (%s)" % a["_why"], o, strip(a), r))
             else:
                 more.append(("cli.run", {"argv": ["jwe", "dec", "-i", parse_out(r, None).strip(), "-k", "k0.jwk"], "files": {"k0.jwk": hx(js(a["_key"]))}, "_why": "after fmt: " + a["_why"]}))
         elif r.get("status") != 0 or r.get("stdout") != hx(pt):
